@@ -193,3 +193,7 @@ CER_SETOF = Contract(
          'compared as bytes); larger collections are covered by the cer-twin / der-twin stand-ins')
 CER_SETOF.bounded = 'SET OF values of at most 3 members (every arrangement of their encodings, of any lengths)'
 CONTRACTS = CONTRACTS + [CER_SETOF]
+
+
+CER_SEQOF.bounded = 'collections of at most 2 elements'
+DER_SORT_KEY.bounded = 'untagged CHOICEs nested at most 3 deep'
